@@ -6,6 +6,7 @@ import (
 	"bytes"
 	"context"
 	"encoding/json"
+	"errors"
 	"fmt"
 	"io"
 	"math/rand"
@@ -115,6 +116,24 @@ func buildServer() (*server.Server, *admission.Admission) {
 		panic(err)
 	}
 	return server.VerifNewServer(a), a
+}
+
+// failingWriter accepts okBytes bytes and then fails every Write: a client that has gone away.
+type failingWriter struct {
+	h       http.Header
+	okBytes int
+}
+
+func (f *failingWriter) Header() http.Header { return f.h }
+func (f *failingWriter) WriteHeader(int)     {}
+func (f *failingWriter) Write(b []byte) (int, error) {
+	if len(b) <= f.okBytes {
+		f.okBytes -= len(b)
+		return len(b), nil
+	}
+	n := f.okBytes
+	f.okBytes = 0
+	return n, errors.New("write: broken pipe")
 }
 
 type exchange struct {
@@ -256,6 +275,18 @@ func C16(seed int64, n int) (*cq.Set, *cq.Interner) {
 			panic(fmt.Sprintf("padding arithmetic: %d != %d", len(b), size))
 		}
 		add(fmt.Sprintf("size:%d", size-limit), rs, b, true, "application/json", "review")
+	}
+	// a client that goes away while its answer is being written must not affect the next answer
+	for i := 0; i < 8; i++ {
+		gone := randReview(r, 400000+i)
+		greq := httptest.NewRequest(http.MethodPost, "/", bytes.NewReader(gone.body(true, "admission.k8s.io/v1", "AdmissionReview", 0)))
+		greq.Header.Set("Content-Type", "application/json")
+		func() {
+			defer func() { _ = recover() }()
+			srv.HandleValidate(&failingWriter{h: http.Header{}, okBytes: i * 7}, greq)
+		}()
+		next := randReview(r, 500000+i)
+		add("after-failed-write", next, next.body(true, "admission.k8s.io/v1", "AdmissionReview", 0), true, "application/json", "review")
 	}
 	// forward compatibility: a review from a newer API server carries fields this build does not know,
 	// in the request and in the embedded object; it is still a well-formed v1 review
